@@ -1,6 +1,6 @@
 (* StoreProofs.v — lemmas about StoreModel: dict laws, the forward simulation of both back-end
    models by the map specification, its lift to call sequences, and the corollaries used by PropC09.v. *)
-From Coq Require Import NArith List Bool Lia Permutation.
+From Coq Require Import NArith List Bool Permutation.
 From CS Require Import Sx Str StoreModel.
 Import ListNotations.
 
@@ -236,12 +236,14 @@ Qed.
 
 Lemma sq_max_ge T r : In r T -> (row_id r <= sq_max T)%N.
 Proof.
-  induction T as [|x T IH]; simpl; [tauto|]. intros [->|H]; [lia|]. specialize (IH H). lia.
+  induction T as [|x T IH]; simpl; [tauto|]. intros [->|H]; [apply N.le_max_l|].
+  eapply N.le_trans; [apply (IH H) | apply N.le_max_r].
 Qed.
 
 Lemma sq_next_fresh T : ~ In (sq_next T) (map row_id T).
 Proof.
-  intros H. apply in_map_iff in H as [r [E H]]. apply sq_max_ge in H. unfold sq_next in E. lia.
+  intros H. apply in_map_iff in H as [r [E H]]. apply sq_max_ge in H. unfold sq_next in E. rewrite E in H.
+  exact (N.nle_succ_diag_l _ H).
 Qed.
 
 Lemma filter_fresh_nil T i t : ~ In i (map row_id T) -> filter (where_id_tag i t) T = [].
@@ -254,10 +256,10 @@ Qed.
 
 Lemma count_le1 T i t : wf_sq T -> (length (filter (where_id_tag i t) T) <= 1)%nat.
 Proof.
-  unfold wf_sq. induction T as [|r T IH]; simpl; intros ND; [lia|].
+  unfold wf_sq. induction T as [|r T IH]; simpl; intros ND; [apply le_S, le_n|].
   inversion ND as [|? ? Hni ND']; subst.
   destruct (where_id_tag i t r) eqn:E; [|auto].
-  apply where_id_tag_true in E as [E _]. subst i. rewrite (filter_fresh_nil _ _ _ Hni). simpl. lia.
+  apply where_id_tag_true in E as [E _]. subst i. rewrite (filter_fresh_nil _ _ _ Hni). simpl. apply le_n.
 Qed.
 
 Lemma NoDup_map_filter {X Y} (f : X -> Y) p l : NoDup (map f l) -> NoDup (map f (filter p l)).
@@ -430,7 +432,7 @@ Proof. intros [_ H] t d Hin. rewrite Forall_forall in H. apply (H (t, d) Hin). Q
 (* the forward simulation, one call *)
 Lemma sq_step_refines T o : wf_sq T ->
   wf_sq (snd (sq_step T o)) /\
-  exists s', sp_ok (abs_sq T) o (unrow (fst (sq_step T o))) s' /\ sp_equiv s' (abs_sq (snd (sq_step T o))).
+  exists s', sp_ok (abs_sq T) o (fst (sq_step T o)) s' /\ sp_equiv s' (abs_sq (snd (sq_step T o))).
 Proof.
   intros WF. destruct o as [t b|t b i|t i|t i|[t|]|]; cbn [sq_step fst snd].
   - (* create *)
@@ -439,7 +441,8 @@ Proof.
   - (* update *)
     split; [unfold wf_sq; rewrite upd_ids; exact WF|].
     pose proof (count_le1 T i t WF) as Hc. pose proof (sq_get_abs T t i) as Hg.
-    destruct (filter (where_id_tag i t) T) as [|r [|r2 rest]] eqn:Ef; simpl in Hc; [| |lia].
+    destruct (filter (where_id_tag i t) T) as [|r [|r2 rest]] eqn:Ef; simpl in Hc;
+      [| |exfalso; inversion Hc as [|? Hc']; inversion Hc'].
     + exists (abs_sq T). split; [constructor; exact Hg|].
       intros k'. rewrite upd_get. destruct (key_eqb (t, i) k') eqn:E.
       * apply key_eqb_eq in E. subst k'. rewrite Hg. reflexivity.
@@ -471,11 +474,11 @@ Proof.
 Qed.
 
 Theorem sq_refines ops T : wf_sq T ->
-  exists s', sp_trace (abs_sq T) (history view_sq ops (fst (run_ops sq_step T ops))) s' /\
+  exists s', sp_trace (abs_sq T) (history view_raw ops (fst (run_ops sq_step T ops))) s' /\
              sp_equiv s' (abs_sq (snd (run_ops sq_step T ops))) /\ wf_sq (snd (run_ops sq_step T ops)).
 Proof.
   intros WF.
-  apply (sim_run sq_step abs_sq wf_sq view_sq (fun _ => True)).
+  apply (sim_run sq_step abs_sq wf_sq view_raw (fun _ => True)).
   - intros c o HI _. apply sq_step_refines. exact HI.
   - exact WF.
   - apply Forall_forall. intros; exact I.
@@ -589,11 +592,11 @@ Proof.
     split; [split; [exact W'|]|].
     + intros t' i' b'. cbn [m_dict m_cursor]. rewrite GG.
       destruct (key_eqb (t, c) (t', i')) eqn:E.
-      * apply key_eqb_eq in E. inversion E; subst. intros _. lia.
-      * intros H. apply CA in H. fold c in H. lia.
+      * apply key_eqb_eq in E. inversion E; subst. intros _. apply N.lt_succ_diag_r.
+      * intros H. apply CA in H. fold c in H. apply N.lt_lt_succ_r. exact H.
     + exists (sp_set (t, c) b (abs_dd (m_dict m))). split.
       * constructor. rewrite G. destruct (dd_get (m_dict m) t c) eqn:E; [|reflexivity].
-        apply CA in E. fold c in E. lia.
+        apply CA in E. fold c in E. exfalso. exact (N.lt_irrefl _ E).
       * apply m_equiv_by_get; [exact (proj1 W')|]. intros t' i'. rewrite sp_get_set, GG, G. reflexivity.
   - (* update *)
     cbn [m_step]. set (g := md_default t (m_dict m)).
@@ -744,7 +747,7 @@ Qed.
 Theorem sq_read_last_write T w t b i ops : wf_sq T ->
   (w = Create t b /\ fst (sq_step T w) = RId i) \/ (w = Update t b i /\ fst (sq_step T w) = RCount 1) ->
   Forall (fun o => touches (t, i) o = false) ops ->
-  fst (sq_step (snd (run_ops sq_step (snd (sq_step T w)) ops)) (Read t i)) = RRow [b].
+  fst (sq_step (snd (run_ops sq_step (snd (sq_step T w)) ops)) (Read t i)) = RBytes b.
 Proof.
   intros WF Hw HF.
   destruct (sq_step_refines T w WF) as [WF1 [s' [Hok He]]].
@@ -782,7 +785,8 @@ Proof.
   intros WF Hin. cbn [sq_step fst]. pose proof (count_le1 T i t WF) as Hc.
   assert (Hf : In (i, t, b0) (filter (where_id_tag i t) T)).
   { apply filter_In. split; [exact Hin|]. apply where_id_tag_true. split; reflexivity. }
-  destruct (filter (where_id_tag i t) T) as [|r [|r2 rest]]; simpl in *; [tauto | reflexivity | lia].
+  destruct (filter (where_id_tag i t) T) as [|r [|r2 rest]]; simpl in *;
+    [tauto | reflexivity | exfalso; inversion Hc as [|? Hc']; inversion Hc'].
 Qed.
 
 Lemma filter_idem {X} (p : X -> bool) l : filter p (filter p l) = filter p l.
@@ -967,9 +971,9 @@ Theorem sq_serial_no_lost_write (progs : list (list op)) (sched : list op) T :
   let rs := fst (run_ops sq_step T sched) in
   let T' := snd (run_ops sq_step T sched) in
   Permutation (concat progs) sched /\
-  (exists s', sp_trace (abs_sq T) (history view_sq sched rs) s' /\ sp_equiv s' (abs_sq T')) /\
+  (exists s', sp_trace (abs_sq T) (history view_raw sched rs) s' /\ sp_equiv s' (abs_sq T')) /\
   wf_sq T' /\
-  sp_equiv (fold_left apply_ack (history view_sq sched rs) (abs_sq T)) (abs_sq T') /\
+  sp_equiv (fold_left apply_ack (history view_raw sched rs) (abs_sq T)) (abs_sq T') /\
   (Forall (fun o => is_delete o = false) sched -> NoDup (created_ids sched rs)).
 Proof.
   intros HI WF. cbn zeta.
@@ -983,18 +987,6 @@ Qed.
 
 (* ------------------------------------------------------------------ refutations (witnesses by computation) *)
 Definition t_a : tag := [116%N].
-
-(* with the results taken as they are, SqliteStorage.read's answer is not a value a map gives *)
-Definition sq_refines_full : Prop :=
-  forall ops, exists s', sp_trace [] (history view_raw ops (fst (run_ops sq_step [] ops))) s'.
-
-Lemma sq_refines_full_refuted : ~ sq_refines_full.
-Proof.
-  intros H. destruct (H [Create t_a [1%N]; Read t_a 1%N]) as [s' Htr]. vm_compute in Htr.
-  inversion Htr as [|? ? ? ? ? ? Hok1 Htr1]; subst.
-  inversion Htr1 as [|? ? ? ? ? ? Hok2 Htr2]; subst.
-  inversion Hok2.
-Qed.
 
 (* MockStorage: a second instance over the same dict hands out an id that a live row of the tag is using *)
 Definition m_refines_full : Prop :=
